@@ -88,7 +88,14 @@ FamWitness ==
       \* deviating witnesses at one position
       W == { One([Member(n, t, m, m, "mid", "max", j, "none", "eq", j, 0, 0, "chacha") EXCEPT !.wit = [kind |-> wk, j |-> j]], "VerifyOnly") :
                n \in NsW, t \in {1, 2, 3}, m \in Ms, j \in 1..8, wk \in {"fewer", "more", "degree", "blind", "value"} }
-  IN {s \in B \cup W : s.members[1].wit.j <= s.members[1].m}
+      \* two openings that are wrong in compensating ways (swapped; value moved from one to the other): m >= 2, positions j, j+1
+      W2 == { One([Member(n, t, m, m, "mid", "one", j, "none", "none", 0, 0, 0, "chacha") EXCEPT !.wit = [kind |-> wk, j |-> j]], "VerifyOnly") :
+                n \in NsW \ {1}, t \in {1, 2}, m \in Ms \ {1}, j \in 1..7, wk \in {"swap", "shift"} }
+      \* all-zero blinding vectors (with value zero the commitment is the identity)
+      Z == { One([Member(n, t, m, m, "mid", vs, j, "none", ps, j, 0, 0, "chacha") EXCEPT !.zb = j], "VerifyOnly") :
+               n \in NsW, t \in {1, 2}, m \in Ms, j \in 1..4, vs \in {"zero", "one"}, ps \in {"none", "zero"} }
+  IN {s \in B \cup W : s.members[1].wit.j <= s.members[1].m} \cup {s \in W2 : s.members[1].wit.j < s.members[1].m}
+     \cup {s \in Z : s.members[1].zb <= s.members[1].m}
 
 (***************************************************************************************************)
 (* alter (C05): one alteration of an accepted triple                                                *)
@@ -141,6 +148,7 @@ Kind(n, t, kd) ==
     [] kd = "v1sL" -> LET mb == Plain(n, t, 1, 1, 1) IN [mb EXCEPT !.label = 1, !.v.label = 1]   \* seeded, made and verified in another context
     [] kd = "v1C"  -> LET mb == Plain(n, t, 1, 2, 1) IN [mb EXCEPT !.label = 2, !.v.label = 2]   \* seeded, context = label + caller state
     [] kd = "v4c8" -> Plain(n, t, 4, 8, 0)
+    [] kd = "v1c16" -> Plain(n, t, 1, 16, 0)
     [] kd = "xs"   -> [Plain(n, t, 1, 1, 0) EXCEPT !.mut = [kind |-> "scalar", slot |-> "d1", j |-> t - 1, how |-> "plus1"]]
     [] kd = "xp"   -> [Plain(n, t, 2, 4, 0) EXCEPT !.mut = [kind |-> "point", slot |-> "L", j |-> 0, how |-> "rand"]]
     [] kd = "xv"   -> [Member(n, t, 1, 1, "mid", "mid", 0, "lt", "lt", 0, 1, 0, "chacha") EXCEPT !.v.proms[1] = None]
@@ -158,19 +166,22 @@ Kind(n, t, kd) ==
 ValidKinds == {"v1", "v1s", "v2", "v4c8"}
 BadKinds == {"xs", "xp", "xv", "xl", "xr", "xk"}
 DisKinds == {"dn", "dt", "dh", "dg", "dh8", "dg8", "vn", "vt"}
-Pattern(pt, x) == CASE pt = 1 -> "v1" [] pt = 2 -> (IF x % 2 = 1 THEN "v1s" ELSE "v2") [] pt = 3 -> (IF x % 3 = 0 THEN "v4c8" ELSE IF x % 3 = 1 THEN "v1s" ELSE "v1")
+Pattern(pt, x) == CASE pt = 1 -> "v1" [] pt = 2 -> (IF x % 2 = 1 THEN "v1s" ELSE "v2") [] pt = 3 -> (IF x % 3 = 0 THEN "v4c8" ELSE IF x % 3 = 1 THEN "v1s" ELSE "v1c16")
 FamBatch ==
   LET MaxK == 3 * MaxBatch + 1
       NT == IF Quick THEN {<<4, 1>>} ELSE {<<4, 1>>, <<2, 2>>}
       Ks == 1..MaxK
       \* zero, one or two special members at any positions
       Lay == { [k |-> k, pt |-> pt, a |-> a, ka |-> ka, b |-> b, kb |-> kb] :
-                 k \in Ks, pt \in (IF Quick THEN {2} ELSE {1, 2, 3}), a \in 0..MaxK, b \in 0..MaxK,
+                 k \in Ks, pt \in (IF Quick THEN {2, 3} ELSE {1, 2, 3}), a \in 0..MaxK, b \in 0..MaxK,
                  ka \in BadKinds \cup DisKinds, kb \in (IF Quick THEN {"xs", "dn"} ELSE BadKinds \cup DisKinds) }
       Good(l) == l.a <= l.k /\ l.b <= l.k /\ (l.b = 0 \/ l.a < l.b) /\ (l.a = 0 => (l.b = 0 /\ l.ka = "xs")) /\ (l.b = 0 => l.kb = "xs")
+                 /\ (Quick /\ l.pt = 3 => l.b = 0)
       Mem(l, nt) == [x \in 1..l.k |-> Kind(nt[1], nt[2], IF x = l.a THEN l.ka ELSE IF x = l.b THEN l.kb ELSE Pattern(l.pt, x))]
       Sk == IF Quick THEN {NoSkew, <<0, 1, 0>>, <<0, 0, -1>>, <<1, 0, 0>>} ELSE {s \in {-1, 0, 1} \X {-1, 0, 1} \X {-1, 0, 1} : TRUE}
-  IN  { ScenF(Mem(l, nt), mode, NoSkew, FALSE, <<Kind(nt[1], nt[2], "v1")>>) : l \in {l \in Lay : Good(l)}, nt \in NT, mode \in {"VerifyOnly", "RecoverAndVerify"} }
+      Plain3(nt, d, a) == [x \in 1..3 |-> Kind(nt[1], nt[2], IF x = a THEN d ELSE "v1")]
+  IN  { ScenF(Plain3(nt, d, a), "VerifyOnly", NoSkew, FALSE, <<Kind(nt[1], nt[2], "v1")>>) : nt \in NT, d \in DisKinds \cup BadKinds, a \in 1..3 }
+  \cup { ScenF(Mem(l, nt), mode, NoSkew, FALSE, <<Kind(nt[1], nt[2], "v1")>>) : l \in {l \in Lay : Good(l)}, nt \in NT, mode \in {"VerifyOnly", "RecoverAndVerify"} }
   \cup { ScenF(Mem([k |-> k, pt |-> 2, a |-> 0, ka |-> "xs", b |-> 0, kb |-> "xs"], <<4, 1>>), "VerifyOnly", sk, FALSE, <<Kind(4, 1, "v1")>>) : k \in {1, 2, MaxBatch + 1}, sk \in Sk }
 
 (***************************************************************************************************)
@@ -178,8 +189,8 @@ FamBatch ==
 (***************************************************************************************************)
 FamRecover ==
   LET Single == { One([[Member(n, t, 1, cap, "mid", "max", 1, "none", ps, 1, ps_seed, lb, rng) EXCEPT !.v.seed = vs] EXCEPT !.mut = mu], mode) :
-                    n \in (IF Quick THEN {1, 8, 64} ELSE AllN), t \in 1..6, cap \in {1, 2}, ps \in {"none", "lt"}, ps_seed \in {0, 1, 2},
-                    lb \in {0}, rng \in (IF Quick THEN {"chacha"} ELSE {"chacha", "zero"}), vs \in {0, 1, 2}, mode \in Modes,
+                    n \in (IF Quick THEN {1, 8, 64} ELSE AllN), t \in (IF Quick THEN {1, 2, 6} ELSE 1..6), cap \in {1, 2}, ps \in {"none", "lt"}, ps_seed \in {0, 1, 2},
+                    lb \in {0}, rng \in (IF Quick THEN {"chacha"} ELSE {"chacha", "zero"}), vs \in {0, 1, 2, 3, 4}, mode \in Modes,
                     mu \in {NoMut, [kind |-> "scalar", slot |-> "d1", j |-> 0, how |-> "plus1"], [kind |-> "point", slot |-> "A1", j |-> 0, how |-> "rand"]} }
       Mix == { Scen([x \in 1..Len(ks) |-> Kind(8, t, ks[x])], mode, NoSkew, FALSE) :
                  ks \in UNION { [1..k -> {"v1", "v1s", "v2", "v1sL", "v1C"}] : k \in 2..(IF Quick THEN 3 ELSE 4) }, t \in (IF Quick THEN {1, 6} ELSE {1, 3, 6}), mode \in Modes }
